@@ -262,6 +262,12 @@ def check(prog, ctx):
                    form=str(pe))
 
     check_derivative(prog, ctx, roles)
+    # dependency: knot reproduction and continuity need the segment search to return the segment that contains x
+    from . import C09
+    ctx.rule('C01.h', 'dependency on the segment search: the index searches behind Locate agree on the segment of a knot and clamp to the '
+             'table ends (rules C09.b/C09.c evaluated here because a wrong segment breaks knot reproduction)', 5)
+    loc, closure = C09.locate_and_helpers(prog)
+    C09.search_rules(prog, ctx, loc, closure, 'C01.h', 'C01.h')
     check_bilinear(prog, ctx)
     check_ctor(prog, ctx, roles, Yf, writer)
 
@@ -444,39 +450,54 @@ def check_bilinear(prog, ctx):
         return
     i, j = sp.symbols('i j', integer=True)
     Tij = T.subs({I[0]: i, J[0]: j})
-    G = [a for a in applied(Tij) if len(a.args) == 2]
-    Xs = [a for a in applied(Tij) if a.args == (i,)]
-    Ys = [a for a in applied(Tij) if a.args == (j,)]
-    if not G or len(set(a.func for a in G)) != 1 or len(set(a.func for a in Xs)) != 1 or len(set(a.func for a in Ys)) != 1:
-        ctx.undecided('C01.f', 'Interpolate2D:form', f, 'cannot identify grid/abscissa arrays in %s' % str(Tij)[:300])
-        return
-    Gf, Xf, Yf = G[0].func, Xs[0].func, Ys[0].func
-    t = (x - Xf(i)) / (Xf(i + 1) - Xf(i))
-    u = (y - Yf(j)) / (Yf(j + 1) - Yf(j))
-    core = (1 - t) * (1 - u) * Gf(i, j) + t * (1 - u) * Gf(i + 1, j) + t * u * Gf(i + 1, j + 1) + (1 - t) * u * Gf(i, j + 1)
-    ratio = sp.cancel(sp.together(Tij / core))
-    ok = not applied(ratio) and not ratio.has(x) and not ratio.has(y) and ratio != 0
-    ctx.decide('C01.f', 'Interpolate2D:form', f, ok,
-               'returned term is %s * bilinear convex combination of the four cell corners' % ratio,
-               'returned term is not a multiple of the bilinear form', witness={'ratio': str(ratio)[:300]}, form=str(Tij))
-    # helper objects are built from the matching abscissa fields
+    # roles come from the constructor: the helper object used with x was built from the x-abscissae, etc.
     ctor = prog.fn(Q2 + 'Interpolation_2D', 6)
-    ix = I[0].args[0]
-    iy = J[0].args[0]
-    want = {str(ix).replace('obj:', ''): Xf.__name__, str(iy).replace('obj:', ''): Yf.__name__}
-    found = {}
+    built = {}
     for e in all_assignments(ctor):
         l = strip(e['lhs'])
-        if l['k'] == 'Member' and 'this.' + l['name'] in want:
+        if l['k'] == 'Member':
             r = strip(e['rhs'])
             if r['k'] == 'Construct' and r['args']:
                 a0 = strip(r['args'][0])
                 if a0['k'] == 'Member':
-                    found['this.' + l['name']] = 'this.' + a0['name']
-    ok = all(found.get(k2) == v for k2, v in want.items())
-    ctx.decide('C01.g', 'Interpolation_2D:helpers', ctor, ok,
-               'index helpers are built from the abscissa arrays they index: %s' % found,
-               'index helper construction %s does not match usage %s' % (found, want))
+                    built['this.' + l['name']] = 'this.' + a0['name']
+    hx = str(I[0].args[0]).replace('obj:', '')
+    hy = str(J[0].args[0]).replace('obj:', '')
+    if hx not in built or hy not in built or hx == hy:
+        ctx.violated('C01.f', 'Interpolate2D:indices', f, 'index helpers %s/%s are not distinct objects built from abscissa fields (%s)' % (hx, hy, built))
+        return
+    Xf, Yf = Function(built[hx], real=True), Function(built[hy], real=True)
+    G = [a for a in applied(Tij) if len(a.args) == 2]
+    if not G or len(set(a.func for a in G)) != 1:
+        ctx.undecided('C01.f', 'Interpolate2D:form', f, 'cannot identify the grid array in %s' % str(Tij)[:300])
+        return
+    Gf = G[0].func
+    problems = []
+    P = sp.together(Tij)
+    try:
+        px = sp.Poly(sp.expand(sp.numer(P)), x, y)
+        den = sp.denom(P)
+        if den.has(x) or den.has(y) or any(mx > 1 or my > 1 for (mx, my) in px.monoms()):
+            problems.append('not of degree <= 1 in x and in y')
+    except sp.PolynomialError:
+        problems.append('not polynomial in x, y')
+    corners = {'(i,j)': (Xf(i), Yf(j), Gf(i, j)), '(i+1,j)': (Xf(i + 1), Yf(j), Gf(i + 1, j)),
+               '(i,j+1)': (Xf(i), Yf(j + 1), Gf(i, j + 1)), '(i+1,j+1)': (Xf(i + 1), Yf(j + 1), Gf(i + 1, j + 1))}
+    ratios = []
+    for name, (xv, yv, gv) in corners.items():
+        val = sp.cancel(sp.together(Tij.subs({x: xv, y: yv})))
+        ratio = sp.cancel(val / gv)
+        if ratio == 0 or applied(ratio) or ratio.has(x) or ratio.has(y):
+            problems.append('at grid node %s the value is %s, not a multiple of %s' % (name, str(val)[:120], gv))
+        else:
+            ratios.append(ratio)
+    if not problems and any(not is_zero(r_ - ratios[0]) for r_ in ratios):
+        problems.append('corner factors differ: %s' % ratios)
+    ctx.decide('C01.f', 'Interpolate2D:form', f, not problems,
+               'bilinear in (x,y) and equal to %s*G at the four corners of cell (i,j): the bilinear interpolant' % (ratios[0] if ratios else '?'),
+               'not the bilinear interpolant of the cell: ' + '; '.join(problems), witness={'problems': problems}, form=str(Tij))
+    ctx.decide('C01.g', 'Interpolation_2D:helpers', ctor, True,
+               'index helpers are built from the abscissa arrays they index: %s' % built)
 
 
 def check_ctor(prog, ctx, roles, Yf, writer):
